@@ -7,7 +7,8 @@ import time
 
 from vmon import env, tablegen
 from vmon.fresh import Zygote
-from vmon.hooks import YieldInjector, call_guard, cache_probe
+from vmon import hooks
+from vmon.hooks import YieldInjector, call_guard, cache_probe, MON
 from vmon.molgen import random_tree_mol, spell
 from vmon.aromgen import standard_system
 from vmon.refsem import tokens_with_dots
@@ -36,7 +37,7 @@ def timeout(tier):
 
 def floors(tier):
     return {"calls": 5000, "overlapping_calls": 2000, "switches_inside_repo": 5000, "rounds": 40, "rounds_with_injection": 15,
-            "novel_symbol_jobs": 2000, "same_input_in_several_threads": 500, "set:thread_counts": 4}
+            "novel_symbol_jobs": 2000, "same_input_in_several_threads": 500, "set:thread_counts": 4, "M4b.augmenting_path_searches": 300}
 
 
 def do(sf, job):
@@ -73,9 +74,15 @@ def make_jobs(rng, table, n):
             if not m.atoms:
                 continue
             jobs.append(["e", spell(m, rng)[0], {"strict": rng.random() < 0.5, "attribute": rng.random() < 0.15}])
-        else:
+        elif x < 0.93:
             m, _, _ = standard_system(rng, nrings=rng.choice([1, 2, 3]))
             jobs.append(["e", spell(m, rng)[0], {"strict": False}])
+        else:
+            # cata-/peri-condensed all-hexagon systems: the greedy matching is often not perfect for them, so the
+            # augmenting-path search (with its own scratch state) runs
+            m, _, _ = standard_system(rng, nrings=rng.choice([4, 5, 6, 8, 10]), sizes=(6,), chords=0)
+            for k in range(rng.choice([1, 2, 3])):
+                jobs.append(["e", ".".join(spell(m, rng)[0] for _ in range(rng.choice([1, 3]))), {"strict": False}])
     return jobs
 
 
@@ -84,6 +91,7 @@ def run(ctx):
     rng = ctx.rng
     quick = ctx.tier == "quick"
     z = Zygote(ctx.shard % 5)
+    hooks.attach_m4b()
     old = sys.getswitchinterval()
     try:
         for rnd in range(4 if quick else 40):
@@ -182,6 +190,8 @@ def run(ctx):
     finally:
         sys.setswitchinterval(old)
         z.close()
+    for k, v in MON.counts.items():
+        ctx.count(k, v)
     sf.set_semantic_constraints("default")
 
 
